@@ -652,7 +652,7 @@ package bpmn
 //@   count(Trace, VisitTrace) == athead(1, count(Trace, VisitTrace))
 
 //@ func (*flow).Start$1
-//@   prop C01 C04 C06 C07 C08 C09
+//@   prop C01 C02 C04 C06 C07 C08 C09
 //@   requires f != nil && f.tracer != nil && f.flowWaitGroup != nil
 //@   recvinv flowAction: forall b int :: off(msg.unconditionalFlows) <= b && b < off(msg.unconditionalFlows) + len(msg.unconditionalFlows) ==>
 //@             0 <= at(msg.unconditionalFlows, b) && at(msg.unconditionalFlows, b) < len(msg.sequenceFlows)
@@ -1083,6 +1083,23 @@ package bpmn
 //@   prop C10 C11
 //@   ensures [inactive-activity-forwards-nothing] count(Call, code("event|IConsumer.ConsumeEvent")) > old(count(Call, code("event|IConsumer.ConsumeEvent"))) ==> old(node.active) == 1
 
+// Where listeners listen.  A catch event registers with the event egress its wiring has when it is constructed; the
+// harness registers itself with the scope's egress and every boundary listener with *itself* - that is what puts the
+// harness's `active` gate in front of them (a listener registered with the scope directly would react after the
+// activity has completed).
+//@ func newCatchEvent
+//@   prop C10 C11
+//@   ensures [the-listener-registers-once-with-the-egress-its-wiring-has] count(Call, code("event|ISource.RegisterEventConsumer")) == old(count(Call, code("event|ISource.RegisterEventConsumer"))) + 1 &&
+//@             lastval(Call, code("event|ISource.RegisterEventConsumer")) == old(wr.eventEgress)
+//@ func newHarness
+//@   prop C10
+//@   requires wr != nil && constructor != nil
+//@   loop 3 range boundaryEvents
+//@     invariant node != nil && wr != nil
+//@     iter ensures [every-boundary-listener-listens-behind-the-harness]
+//@       count(Call, code("event|ISource.RegisterEventConsumer")) == old(count(Call, code("event|ISource.RegisterEventConsumer"))) + 1 &&
+//@       lastval(Call, code("event|ISource.RegisterEventConsumer")) == iface(node)
+
 // The action transformer of an interrupting boundary event: before the boundary's token may leave, the activity is
 // asked to cancel — at most once per harness (sync.Once) — and the answer is awaited; the action is passed on unchanged.
 //@ func newHarness$1
@@ -1163,6 +1180,12 @@ package bpmn
 //@     iter ensures [a-release-frees-every-waiting-token-once-and-stops-listening]
 //@       count(Send, flowAction) > old(count(Send, flowAction)) ==>
 //@         count(Send, flowAction) == old(count(Send, flowAction)) + old(len(evt.awaitingActions)) && len(evt.awaitingActions) == 0 && !evt.activated
+//@     iter ensures [tokens-are-released-only-when-the-satisfier-says-every-condition-is-met]
+//@       count(Send, flowAction) > old(count(Send, flowAction)) || (old(evt.activated) && !evt.activated) ==>
+//@         ndirectTrue(code("logic|(*CatchEventSatisfier).Satisfy")) == old(ndirectTrue(code("logic|(*CatchEventSatisfier).Satisfy"))) + 1
+//@     iter ensures [a-satisfied-listener-stops-listening]
+//@       ndirectTrue(code("logic|(*CatchEventSatisfier).Satisfy")) > old(ndirectTrue(code("logic|(*CatchEventSatisfier).Satisfy"))) ==>
+//@         !evt.activated && len(evt.awaitingActions) == 0 && count(Send, flowAction) == old(count(Send, flowAction)) + old(len(evt.awaitingActions))
 //@   loop 2 range awaitingActions
 //@     invariant evt.wiring != nil && evt.wiring == old(evt.wiring) && evt.satisfier == old(evt.satisfier) && evt.mch == old(evt.mch)
 //@     invariant cesShape(evt.satisfier) && cesDistinct(evt.satisfier) && cesNoneFull(evt.satisfier) && cesCommonBit(evt.satisfier)
